@@ -57,7 +57,7 @@ THEOREMS = ["PyYetiVerif.C06." + n for n in (
     "net_ifltm_is_interface_resultant net_ifltm_units rbe3_normal_reproduces net_ifatm_is_rb_acceleration_of_interface resultant_force_ref_indep cgatm_translation_rows_are_cg_acceleration cgatm_rotation_rows_are_moment_about_offset cgatm_rotation_rows_reference_counterexample cglf_is_weight_normalised cglf_moment_rows_match_shear tsc2lv_blocks mk_net_drms_fields "
     "eigh_spec_charpoly principal_inertias_invariant principal_inertias_ref_indep rotated_mass_blocks principal_gyr_eq eighResid_spec "
     "find_xyz_triples_segs rbScale2_grids rbmultchk_scale_and_coords rbmultchk_flags_nonrigid "
-    "role_after_reorder convert_reorder_commute cbPrepare_cases cbFinish_cases cbcheck_errors cbcheck_emfilt_empty_raises cbcheck_returns_def cbPrepare_option_independence cbFinish_ok cbcheck_option_independence cbcheck_emfilt_independence cbcheck_no_modal_dof convert_qq_diag_invariant cbcheck_frq_conv_invariant flippv_order_indep reorder_drm_response convert_drm_response convert_drm_roundtrip conv_factors_inverse"
+    "role_after_reorder convert_reorder_commute cbcheck_errors cbcheck_returns_def cbcheck_option_independence cbcheck_no_modal_dof convert_qq_diag_invariant cbcheck_frq_conv_invariant flippv_order_indep reorder_drm_response convert_drm_response convert_drm_roundtrip conv_factors_inverse"
 ).split()]
 TRUSTED = [
     "correspondence harness harness/props/c06.py (numeric comparison 1e-9*scale, exact for index vectors / trimmed DOF lists / "
@@ -188,10 +188,9 @@ MANIFEST = {
     "rows without translation part find_xyz_triples marks exactly the node rows with location and scale "
     "(find_xyz_triples_segs, on C18's model), the scale of six-row-per-grid rigid-body modes is their unit scale "
     "(rbScale2_grids), together (rbmultchk_scale_and_coords), and a candidate whose rotation block violates the two allclose "
-    "tests stays blank (rbmultchk_flags_nonrigid). cbcheck as decision logic (cbcheckM): when it raises (cbcheck_errors, "
-    "cbPrepare_cases, cbFinish_cases, cbcheck_emfilt_empty_raises), what it returns (cbcheck_returns_def), which options "
-    "cannot change which fields (cbcheck_option_independence, cbPrepare_option_independence, cbcheck_emfilt_independence, "
-    "cbFinish_ok), converting then reordering = reordering then converting with the new b-set (convert_reorder_commute, "
+    "tests stays blank (rbmultchk_flags_nonrigid). cbcheck as decision logic (cbcheckM): when it raises (cbcheck_errors), what "
+    "it returns (cbcheck_returns_def), rb_norm / em_filt / n_freefree_modes cannot change the returned matrices and tables nor "
+    "make the call fail (cbcheck_option_independence), converting then reordering = reordering then converting with the new b-set (convert_reorder_commute, "
     "role_after_reorder), cb_frq unchanged by conv and by the b-set order (convert_qq_diag_invariant, "
     "cbcheck_frq_conv_invariant, flippv_order_indep), nq = 0 (cbcheck_no_modal_dof); data recovery matrices: response unchanged "
     "by cbreorder(drm=True) and cbconvert(drm=True), round trip (reorder_drm_response, convert_drm_response, "
@@ -205,8 +204,8 @@ MANIFEST = {
     "(every numeric table parsed and compared with the model and with ground truth at print precision), the label lists of "
     "mk_net_drms (exact tie), the kernels behind ifatm / cgatm / principal axes (the driver's own solvers, residuals measured), "
     "rbmultchk's report on matrices outside the proved family (exact stream through C18's model of find_xyz_triples), "
-    "cylindrical / spherical interface grids in mk_net_drms. Open findings reported by the oracle: F46 (mk_net_drms cgatm "
-    "rotational rows for ref != origin) and, new, cbcheck(em_filt > 0) raising IndexError when no mode is above the filter.",
+    "cylindrical / spherical interface grids in mk_net_drms. Open finding reported by the oracle: F46 (mk_net_drms cgatm "
+    "rotational rows for ref != origin); found by this extension and repaired in /repo: F66 (cbcheck em_filt IndexError).",
     "technique": "Lean 4 proof (ring/field identities on explicit 6x6 entries, Mathlib block-matrix algebra, "
     "permutation matrices, Schur complements, characteristic polynomials, reuse of C14's 3x3 frame lemmas and of C18's "
     "find_xyz_triples model) + numeric / exact-rational differential correspondence with pyyeti.cb / n2p on generated "
@@ -1986,11 +1985,13 @@ def oracle_coordchk(c):
     n, nb = case["n"], case["nb"]
     K = case["Kin"]
     bset = np.asarray(b["bset"])
-    kmax = max(np.abs(K).max(), 1e-300)
+    # (scale of the terms that cancel in K @ RB: a single-grid interface without modal DOF has K = round-off)
+    kmax = max(np.abs(K).max(), st["kscale"])
     sc = max(1.0, np.abs(r.rbmodes).max())
     if r.rbmodes.shape[0] != n:
         _fail(out, fam + "-rbmodes-rows", "rbmodes must have one row per DOF of K", inp, list(r.rbmodes.shape), [n, 6])
         return out
+    # F67 (fixed): without modal DOF the modes came back in b-set order instead of the row order of K
     unsorted_noq = case["nq"] == 0 and not np.array_equal(bset, np.sort(bset))
     res = np.abs(K @ r.rbmodes).max() / (kmax * sc)
     if not res <= 1e-7:
@@ -2011,7 +2012,7 @@ def oracle_coordchk(c):
         want = (xyz - st["xyz"][g0]) @ st["frames"][g0]
     else:
         want = xyz
-    if not _close(r.coords, want, 1e-7, max(1.0, np.abs(want).max()))[0] or not r.maxerr <= 1e-7 * max(1.0, np.abs(want).max()):
+    if not _close(r.coords, want, 1e-7, max(1.0, np.abs(want).max()))[0] or not np.max(r.maxerr) <= 1e-7 * max(1.0, np.abs(want).max()):
         _fail(out, fam + "-coords", "coordinates derived from the stiffness are not the grid locations (relative to the reference grid in "
               "its axes, or to the basic origin with rb_normalizer)", inp, np.asarray(r.coords).tolist(), want.tolist())
     return out
@@ -2146,7 +2147,7 @@ def cbcheck_request(case, uset=None, bseto=None, reorder=None):
 
 def parse_cbcheck_reply(rep, n, nb):
     t = rep.split(" ")
-    if t[0] in ("raise-refpoint", "raise-singular", "raise-usetrows", "raise-notascending", "raise-emfilt-empty"):
+    if t[0] in ("raise-refpoint", "raise-singular", "raise-usetrows", "raise-notascending"):
         return {"chk": t[0]}
     if t[0] not in ("pass", "fail", "single"):
         raise Infra("C06 driver: unexpected cbcheck reply %r" % rep[:80])
@@ -2633,14 +2634,6 @@ def correspondence(ctx):
             else:
                 ctx.disagree("cbcheck", inp, "exception RuntimeError: %s" % str(e)[:200], mo["chk"])
             continue
-        except IndexError as e:
-            # the code as it is (new finding, reported by the oracle): a positive em_filt with no mode above it hands an empty
-            # table to writer.vecwrite
-            if mo["chk"] == "raise-emfilt-empty" and "out of bounds for axis 0 with size 0" in str(e):
-                ctx.count("cbcheck:raises-emfilt-empty")
-            else:
-                ctx.disagree("cbcheck", inp, "exception IndexError: %s" % str(e)[:200], mo["chk"])
-            continue
         except Exception as e:  # the model has no exception for these inputs
             ctx.disagree("cbcheck", inp, "exception %s: %s" % (type(e).__name__, str(e)[:200]), "a result")
             continue
@@ -2920,8 +2913,8 @@ def correspondence(ctx):
         sc = max(1.0, np.abs(rbm).max())
         cmp("cbcoordchk-rbmodes", "rbmodes", inp, r.rbmodes, rbm, sc)
         cmp("cbcoordchk-coords", "coords", inp, r.coords, co, max(1.0, np.abs(co).max()))
-        if abs(r.maxerr - er.max()) > 1e-9 * max(1.0, np.abs(co).max()):
-            ctx.disagree("cbcoordchk-maxerr", inp, float(r.maxerr), float(er.max()))
+        # (`maxerr` is the vector of pattern errors per node, as rbdispchk returns it)
+        cmp("cbcoordchk-maxerr", "maxerr", inp, np.atleast_1d(r.maxerr), er, max(1.0, np.abs(co).max()))
         want_chk = "pass" if t[0] == "single" else t[0]
         if r.refpoint_chk != want_chk:
             ctx.disagree("cbcoordchk-refchk", inp, r.refpoint_chk, t[0])
@@ -3331,7 +3324,7 @@ def oracle_cbcheck(spec):
             except Exception:  # noqa: BLE001
                 none_above = False
             if none_above:
-                # NEW FINDING: the print filter makes cbcheck raise on a valid model when no mode is above it
+                # F66 (fixed by 2a88ed1): the print filter made cbcheck raise on a valid model when no mode is above it
                 _fail(out, "cbcheck-em_filt-no-mode-above-filter-raises-IndexError", "cbcheck(..., em_filt=x) raises IndexError (writer.vecwrite on an "
                       "empty effective-mass table) when no fixed-base mode has more than x percent effective mass; with em_filt=0 the "
                       "same model is checked without complaint", inp, "%s: %s" % (type(e).__name__, str(e)[:120]),
@@ -3732,8 +3725,8 @@ def probe_net_reorder_spec(spec, with_kind=False):
 
 
 def probe_emfilt(seed):
-    """NEW FINDING cbcheck-em_filt-no-mode-above-filter-raises-IndexError: a positive print filter above every percent
-    effective mass of the model (the docstring's own use: 'to filter out modes below 2%')"""
+    """regression guard of finding F66 (cbcheck-em_filt-no-mode-above-filter-raises-IndexError, fixed by 2a88ed1): a positive
+    print filter above every percent effective mass of the model must give a report with an empty table"""
     rng = np.random.default_rng(seed)
     spec = gen_spec(rng)
     spec.update(variant="valid", reorder=True, conv=None, em_filt=100.5)  # no single mode can have more than 100 percent
